@@ -4,13 +4,13 @@
 # usage: tools/intake2.sh Cxx
 export GOFLAGS=-mod=mod GOPROXY=off GOSUMDB=off GOTOOLCHAIN=local
 VERIF=$(cd "$(dirname "$0")/.." && pwd)
-P=$1; wt=/tmp/sb-$P; lc=$(echo $P | tr A-Z a-z)
+P=$1; wt=${WTBASE:-/tmp/sb}-$P; lc=$(echo $P | tr A-Z a-z)
 for ab in A B; do
   [ -f "$wt/$ab.patch" ] || { echo "R2 $P $ab: no patch"; continue; }
   cmd=$(cat "$wt/demo_$ab/CMD" 2>/dev/null | head -1)
   [ -z "$cmd" ] && cmd="go run ."
   "$VERIF/tools/demo.sh" "$wt" "$ab" "$cmd" | head -1
-  id="r2-$lc-$(echo $ab | tr A-Z a-z)"
+  id="${RID:-r2}-$lc-$(echo $ab | tr A-Z a-z)"
   "$VERIF/tools/intake.sh" "$wt" "$ab" "$id" "$P" "see NOTES.md in this directory" | tail -1
   if [ -d "$VERIF/seeded/$id" ]; then
     cp "$wt/NOTES.md" "$VERIF/seeded/$id/NOTES.md" 2>/dev/null
